@@ -1,178 +1,6 @@
 ------------------------------ MODULE VerifGen ------------------------------
-(* G phase of C08: meta-models with invariants on classes, inherited invariants, constrained     *)
-(* primitives (with inheritance) held in properties and list items, nested and listed instances, *)
-(* descriptions of several shapes, pattern functions (plain and composed by an f-string) and      *)
-(* transpilable functions; and for each model the instances to verify.                           *)
-(*                                                                                             *)
-(*   Pos(int) <- Small_pos;  Name(str) <- Short_name                                             *)
-(*   Item:    v: int, ov: Optional[int], nm: Optional[Short_name]                                 *)
-(*   Parent:  i, oi, s, os, b                         (abstract in every second model)          *)
-(*   Subject(Parent): xs, oxs, it, oit, its, e, oe, p: Pos, ops: Optional[Small_pos],             *)
-(*                    ps: List[Small_pos], nm: Name                                              *)
-(* The class invariants are the WellTyped trees of the C07 grammar (ExprSchema), BatchSize per   *)
-(* model; those that mention only Parent's properties are declared on Parent in the odd models   *)
-(* (inherited invariants). WellTyped only selects candidates: the R phase drops what the real    *)
-(* code rejects and reports the model as run.                                                    *)
-EXTENDS Verif, ExprSchema, Json, IOUtils, SequencesExt
-CONSTANTS Wide, BatchSize, NInst, StrLen
-
-MinOf(x, y) == IF x < y THEN x ELSE y
-Prop(n, ty) == [name |-> n, ty |-> ty]
-
-ItemProps == <<Prop("v", TInt), Prop("ov", TOpt(TInt)), Prop("nm", TOpt(TCPrim("Short_name")))>>
-ParentProps == <<Prop("i", TInt), Prop("oi", TOpt(TInt)), Prop("s", TStr), Prop("os", TOpt(TStr)), Prop("b", TBool)>>
-SubjectProps == <<Prop("xs", TList(TInt)), Prop("oxs", TOpt(TList(TInt))), Prop("it", TInst("Item")), Prop("oit", TOpt(TInst("Item"))),
-                  Prop("its", TList(TInst("Item"))), Prop("e", TEnum("Color")), Prop("oe", TOpt(TEnum("Color"))),
-                  Prop("p", TCPrim("Pos")), Prop("ops", TOpt(TCPrim("Small_pos"))), Prop("ps", TList(TCPrim("Small_pos"))), Prop("nm", TCPrim("Name"))>>
-ParentNames == {"i", "oi", "s", "os", "b"}
-
-\* ---- descriptions ---------------------------------------------------------------------------
-DescSuffixes == <<" holds.",
-              " must hold: the value shall be \"quoted\" here.",
-              " has a back\\slash and a 'single' quote.",
-              " requires that the first word of a rather long description of an invariant is a word, an article follows, and the text is wrapped into several literals as the generator does it.",
-              " has  two spaces, a {brace} and 100 %s.",
-              " ends with a quote\"",
-              " is a the an a the an a the an a the an a the an a the an a the an a the an a the an a the an end.",
-              " \\n is not a newline but \\\\ are two backslashes, and \ttab is a tab.">>
-Desc(owner, k) == owner \o " invariant " \o ToString(k) \o DescSuffixes[((k - 1) % Len(DescSuffixes)) + 1]
-WithDescs(owner, trees, off) == [k \in 1..Len(trees) |-> [e |-> trees[k], d |-> Desc(owner, off + k)]]
-
-\* ---- pools ----------------------------------------------------------------------------------
-\* trees that index a list raise IndexError on many instances (which ends verify()): they get models of their own
-WellTypedTrees == {t \in Trees(Wide) : SubjectWellTyped(t)}
-Pool == SetToSeq({t \in WellTypedTrees : "idx" \notin Kinds(t)}) \o SetToSeq({t \in WellTypedTrees : "idx" \in Kinds(t)})
-NB == (Len(Pool) + BatchSize - 1) \div BatchSize
-Batch(k) == SubSeq(Pool, (k - 1) * BatchSize + 1, MinOf(k * BatchSize, Len(Pool)))
-ParentOnly(t) == Mentions(t) # {} /\ Mentions(t) \subseteq ParentNames
-
-ItemInvPool == <<Cmp(">=", P("v"), IntC(0)),
-                 Or(<<IsNone(P("ov")), Cmp(">", P("ov"), P("v"))>>),
-                 Imp(IsNotNone(P("ov")), Cmp("!=", P("ov"), IntC(1))),
-                 Imp(IsNotNone(P("nm")), Cmp("!=", P("nm"), StrC(a_))),
-                 And(<<Cmp("<", P("v"), IntC(2)), Cmp(">", P("v"), IntC(-1))>>),
-                 Not(Cmp("==", P("v"), IntC(1)))>>
-PosInvPool == <<Cmp(">", Self, IntC(0)), Cmp(">=", Self, IntC(1)), Call("gt_zero", <<Self>>), Not(Cmp("<=", Self, IntC(0)))>>
-SmallPosInvPool == <<Cmp("<", Self, IntC(3)), Cmp("!=", Self, IntC(3)), Imp(Cmp(">", Self, IntC(1)), Cmp("<", Self, IntC(3))), Call("in_range", <<IntC(2), Self>>)>>
-NameInvPool == <<Cmp("<=", LenOf(Self), IntC(2)), Call("is_abc", <<Self>>), In(Self, Names), Cmp("!=", Self, StrC(<<>>)),
-                 Or(<<Cmp("==", Self, StrC(a_)), Cmp(">=", LenOf(Self), IntC(2))>>)>>
-ShortNameInvPool == <<Cmp(">=", LenOf(Self), IntC(1)), Cmp("<", Self, StrC(<<98>>)), QAnyR("j", Cmp("<", J, LenOf(Self)), IntC(0), IntC(1)),
-                      QAll("c", Cmp("!=", Name("c"), StrC(<<98>>)), Self)>>
-Pick(pool, k) == pool[((k - 1) % Len(pool)) + 1]
-Pick2(pool, k) == <<Pick(pool, k), Pick(pool, k + 1)>>
-
-\* ---- verification functions -------------------------------------------------------------------
-B_ == RChr(98)
-RegexPool ==
-    <<RCat(<<RChr(97), RStar(RSet(<<98, 99>>))>>),                          \* a[bc]*
-      RRep(RSet(<<97, 99>>), 2, 2),                                         \* [a-c]{2}
-      RPlus(RAlt(<<RCat(<<RChr(97), B_>>), RChr(99)>>)),                    \* (ab|c)+
-      RCat(<<RNotSet(<<97, 97>>), ROpt(B_)>>),                              \* [^a]b?
-      RCat(<<RChr(97), RDot, RChr(99)>>),                                   \* a.c
-      RCat(<<RChr(97), RChr(46), B_>>),                                     \* a\.b
-      RCat(<<RSet(<<97, 97, 45, 45, 99, 99>>), RStar(B_)>>),                \* [a\-c]b*
-      RCat(<<RRep(RChr(97), 1, 2), RRep(B_, 0, 1)>>),                       \* a{1,2}b{0,1}
-      RAlt(<<RCat(<<RChr(97), RChr(97)>>), RStar(B_), RChr(43)>>),          \* (aa|b*|\+)
-      RCat(<<RStar(RAlt(<<RChr(97), RCat(<<B_, RChr(99)>>)>>)), RChr(97)>>) \* (a|bc)*a
-    >>
-\* in every second model the pattern is composed of two variables by an f-string
-PatternFn(k) ==
-    LET r == Pick(RegexPool, k)
-    IN  IF k % 2 = 0 /\ r.k = "cat" /\ Len(r.a) >= 2
-        THEN [kind |-> "pattern", re |-> r, parts |-> << <<"first", r.a[1]>>, <<"rest", RCat(Tail(r.a))>> >>]
-        ELSE [kind |-> "pattern", re |-> r, parts |-> <<>>]
-Funcs(k) ==
-    [is_abc |-> PatternFn(k),
-     gt_zero |-> [kind |-> "transp", params |-> <<"x">>, body |-> <<Return(Cmp(">", Name("x"), IntC(0)))>>],
-     in_range |-> [kind |-> "transp", params |-> <<"x", "lo">>,
-                   body |-> <<Assign("d", Sub(Name("x"), Name("lo"))), Return(Cmp(">=", Name("d"), IntC(0)))>>],
-     between |-> [kind |-> "transp", params |-> <<"x", "lo", "hi">>,
-                  body |-> <<Assign("above", Cmp(">=", Name("x"), Name("lo"))), Assign("below", Cmp("<=", Add(Name("x"), IntC(0)), Name("hi"))),
-                             Return(And(<<Name("above"), Name("below")>>))>>],
-     all_small |-> [kind |-> "transp", params |-> <<"ns">>,
-                    body |-> <<Return(QAll("n", Or(<<Cmp("<", Name("n"), IntC(2)), Cmp("==", Name("n"), IntC(3))>>), Name("ns")))>>]]
-Sigs == [is_abc |-> [params |-> <<TStr>>, ret |-> TBool], gt_zero |-> [params |-> <<TInt>>, ret |-> TBool],
-         in_range |-> [params |-> <<TInt, TInt>>, ret |-> TBool], between |-> [params |-> <<TInt, TInt, TInt>>, ret |-> TBool],
-         all_small |-> [params |-> <<TList(TInt)>>, ret |-> TBool]]
-
-\* ---- models -----------------------------------------------------------------------------------
-ModelOf(k, trees) ==
-    LET onParent == IF k % 2 = 1 THEN SelectSeq(trees, ParentOnly) ELSE <<>>
-        onSubject == SelectSeq(trees, LAMBDA t : ~(k % 2 = 1 /\ ParentOnly(t)))
-    IN  [name |-> "m" \o ToString(k), root |-> "Subject",
-         classes |-> <<[name |-> "Item", base |-> "", abstract |-> FALSE, props |-> ItemProps, invs |-> WithDescs("Item", Pick2(ItemInvPool, k), 0)],
-                       [name |-> "Parent", base |-> "", abstract |-> (k % 4 \in {1, 2}), props |-> ParentProps, invs |-> WithDescs("Parent", onParent, 0)],
-                       [name |-> "Subject", base |-> "Parent", abstract |-> FALSE, props |-> SubjectProps, invs |-> WithDescs("Subject", onSubject, 100)]>>,
-         cprims |-> <<[name |-> "Pos", base |-> "int", invs |-> WithDescs("Pos", <<Pick(PosInvPool, k)>>, 0)],
-                      [name |-> "Small_pos", base |-> "Pos", invs |-> WithDescs("Small_pos", <<Pick(SmallPosInvPool, k)>>, 0)],
-                      [name |-> "Name", base |-> "str", invs |-> WithDescs("Name", Pick2(NameInvPool, k), 0)],
-                      [name |-> "Short_name", base |-> "Name", invs |-> WithDescs("Short_name", <<Pick(ShortNameInvPool, k)>>, 0)]>>,
-         enums |-> [Color |-> {"Red", "Green"}],
-         vals |-> G0.vals, funcs |-> Funcs(k), sigs |-> Sigs]
-
-\* extra trees of interest to C08 that the pool may not contain (calls of the additional functions)
-ExtraTrees == <<Call("between", <<P("i"), IntC(0), IntC(1)>>), Call("all_small", <<P("xs")>>),
-                Imp(IsNotNone(P("oxs")), Call("all_small", <<P("oxs")>>)), Not(Call("between", <<LenOf(P("s")), IntC(1), P("i")>>))>>
-\* accepted by the pinned code although they raise (known C07 findings): verification must raise exactly when they do
-RaisingTrees == <<Or(<<P("b"), Cmp("<", P("s"), IntC(0))>>), Imp(P("b"), Cmp(">", LenOf(P("oxs")), IntC(0))),
-                  Imp(Cmp(">", P("i"), IntC(0)), Call("is_abc", <<P("os")>>))>>
-
-ModelTrees(k) == IF k <= NB THEN Batch(k) ELSE IF k = NB + 1 THEN ExtraTrees ELSE <<RaisingTrees[k - NB - 1], Cmp(">", P("i"), IntC(0))>>
-NModels == NB + 1 + Len(RaisingTrees)
-
-\* ---- instances ----------------------------------------------------------------------------------
-AddNm(v, n) == IF v.t = "inst" THEN InstV("Item", v.id, [v |-> v.f.v, ov |-> v.f.ov, nm |-> n]) ELSE v
-DefaultX == [itnm |-> NoneV, itsnm |-> NoneV, p |-> IntV(1), ops |-> NoneV, ps |-> IntList(<<>>), nm |-> StrV(a_)]
-Ext(subj, x) ==
-    InstV("Subject", "self",
-          [i |-> subj.f.i, oi |-> subj.f.oi, s |-> subj.f.s, os |-> subj.f.os, b |-> subj.f.b, xs |-> subj.f.xs, oxs |-> subj.f.oxs,
-           it |-> AddNm(subj.f.it, x.itnm), oit |-> AddNm(subj.f.oit, NoneV),
-           its |-> ListV([j \in 1..Len(subj.f.its.xs) |-> AddNm(subj.f.its.xs[j], x.itsnm)]),
-           e |-> subj.f.e, oe |-> subj.f.oe, p |-> x.p, ops |-> x.ops, ps |-> x.ps, nm |-> x.nm])
-
-\* NInst instances per model in which every property varies at once: property number q takes the values of
-\* its domain cyclically with a stride (a prime larger than every domain) of its own, so that each property
-\* runs through its whole domain and the combinations differ from instance to instance.
-Strides == <<17, 19, 23, 29, 31, 37, 41, 43, 47, 53, 59, 61, 67, 71, 73, 79, 83, 89>>
-Cyc(dom, n, q) == dom[(((n - 1) * Strides[q] + q) % Len(dom)) + 1]
-NmDom == <<NoneV, StrV(a_), StrV(<<97, 98, 99>>), StrV(<<>>), StrV(<<98>>)>>
-JointInst(n) ==
-    Ext(SubjectOf(PropOrder, [q \in 1..Len(PropOrder) |-> Cyc(DomFull[PropOrder[q]], n, q)]),
-        [itnm |-> Cyc(NmDom, n, 13), itsnm |-> Cyc(NmDom, n, 14), p |-> Cyc(<<IntV(0), IntV(1), IntV(3)>>, n, 15),
-         ops |-> Cyc(<<NoneV, IntV(0), IntV(1), IntV(3)>>, n, 16), ps |-> Cyc(IntListsSmall, n, 17), nm |-> Cyc(Tail(NmDom), n, 18)])
-
-abc_ == <<97, 98, 99>>
-Subj(ms, vals) == SubjectOf(ms, vals)
-StructureInsts ==
-    LET base == Subj(<<"its">>, <<ItemListsSmall[3]>>)
-        XW(f, val) == [DefaultX EXCEPT ![f] = val]
-    IN  [n \in 1..3 |-> Ext(base, XW("p", <<IntV(0), IntV(1), IntV(3)>>[n]))]
-        \o [n \in 1..4 |-> Ext(base, XW("ops", <<NoneV, IntV(0), IntV(1), IntV(3)>>[n]))]
-        \o [n \in 1..4 |-> Ext(base, XW("ps", IntListsSmall[n]))]
-        \o [n \in 1..4 |-> Ext(base, XW("nm", <<StrV(<<>>), StrV(a_), StrV(abc_), StrV(<<98>>)>>[n]))]
-        \o [n \in 1..4 |-> Ext(base, XW("itnm", <<NoneV, StrV(a_), StrV(abc_), StrV(<<>>)>>[n]))]
-        \o [n \in 1..3 |-> Ext(base, XW("itsnm", <<StrV(a_), StrV(abc_), StrV(<<>>)>>[n]))]
-        \o [n \in 1..3 |-> Ext(Subj(<<"it">>, <<ItemsSmall("it")[n]>>), DefaultX)]
-        \o [n \in 1..4 |-> Ext(Subj(<<"oit">>, <<(<<NoneV>> \o ItemsSmall("oit"))[n]>>), DefaultX)]
-        \o [n \in 1..4 |-> Ext(Subj(<<"its">>, <<ItemListsSmall[n]>>), DefaultX)]
-        \o <<Ext(Subj(<<"i", "it", "oit", "its">>, <<IntV(2), ItemsSmall("it")[2], ItemsSmall("oit")[3], ItemListsSmall[4]>>),
-                 [itnm |-> StrV(abc_), itsnm |-> StrV(<<>>), p |-> IntV(0), ops |-> IntV(3), ps |-> IntListsSmall[4], nm |-> StrV(abc_)])>>
-
-\* the structure instances (one nested value varied at a time) go with the first models and the special ones
-Instances(k) == [n \in 1..NInst |-> JointInst(n)] \o (IF k <= 3 \/ k > NB THEN StructureInsts ELSE <<>>)
-
-\* ---- arguments for comparing the generated functions with the originals --------------------------
-Alphabet(r) == LET b == {c \in Boundary(r) : c > 32 /\ c < 127} IN IF Cardinality(b) <= 4 THEN b \cup {122} ELSE b
-Strs(alpha, n) == UNION {[1..m -> alpha] : m \in 0..n}
-SmallInts == {IntV(n) : n \in -1..3}
-FnArgs(k) ==
-    [is_abc |-> SetToSeq({<<StrV(s)>> : s \in Strs(Alphabet(Pick(RegexPool, k)), IF Cardinality(Alphabet(Pick(RegexPool, k))) <= 4 THEN StrLen ELSE StrLen - 1)}),
-     gt_zero |-> SetToSeq({<<x>> : x \in SmallInts}),
-     in_range |-> SetToSeq({<<x, y>> : x \in SmallInts, y \in SmallInts}),
-     between |-> SetToSeq({<<x, y, z>> : x \in SmallInts, y \in {IntV(0), IntV(1)}, z \in {IntV(0), IntV(2)}}),
-     all_small |-> [n \in 1..Len(IntLists) |-> <<IntLists[n]>>]]
-
-Cases == [k \in 1..NModels |-> [model |-> ModelOf(k, ModelTrees(k)), insts |-> Instances(k), fnargs |-> FnArgs(k)]]
+(* G phase of C08: the cases of VerifModels (models x instances x function arguments) as JSON.  *)
+EXTENDS VerifModels, Json, IOUtils
 
 ASSUME JsonSerialize(IOEnv.VERIF_OUT, Cases)
 ASSUME PrintT(<<"@@PRINT@@ models", NModels, Len(Pool)>>)
